@@ -18,7 +18,8 @@ import Mathlib.LinearAlgebra.Matrix.Determinant.Basic
 
 open Finset BigOperators Matrix
 
-namespace GT
+namespace GT.GS
+open GT.Iso
 
 variable {K : Type*} [Field K] {n : ℕ}
 
@@ -86,4 +87,4 @@ def gsD (F : Matrix (Fin n) (Fin n) K) (rows : List (DVec n K)) : List (DVec n K
 
 end exec
 
-end GT
+end GT.GS
